@@ -166,6 +166,8 @@ def logical_byte(A, g: Geo, store, a):
     wo = g.word_off(a)
     sh = (a & 3) * 8
     for c, s, w, b in resident(A, g, a):
+        if b["valid"] is False and len(b["words"]) < g.words:
+            continue  # never-filled way of a reset cache
         word = b["words"][0]
         for j in range(1, g.words):
             word = ite(cond("==", wo, j), b["words"][j], word)
@@ -579,6 +581,27 @@ def h_prog_dcache(e, mnems, cfg, props):
         c.sim.state.memory.miss_penality = penalty
     for c in (c0, c1, c5):
         place_instructions(e, c, items)
+    # word-crossing accesses are rejected by the cache (C03 statement) and are outside the
+    # program clause: observed at the cache system's own entry points
+    from architecture_simulator.util.integer_manipulation import ByteOffsetError
+
+    rejected = []
+
+    def watch(ms):
+        for nm in ("read_byte", "read_halfword", "read_word", "write_byte", "write_halfword", "write_word"):
+            orig = getattr(ms, nm)
+
+            def w(*a, _o=orig, **k):
+                try:
+                    return _o(*a, **k)
+                except ByteOffsetError:
+                    rejected.append(nm)
+                    raise
+
+            setattr(ms, nm, w)
+
+    watch(c1.sim.state.memory)
+    watch(c5.sim.state.memory)
     mnem_of = {id(ins): m for (a, ins), m in zip(items, mnems)}
     pm5, m5 = c5.sim.state.performance_metrics, c5.sim.state.memory
     st5 = {"cycles": 0, "acc": 0, "hits": 0}
@@ -599,12 +622,15 @@ def h_prog_dcache(e, mnems, cfg, props):
 
     s1 = progs.run_single(e, c1, K, on_step=on1)
     s0 = progs.run_single(e, c0, K)
-    unaligned = any(f is not None and "ByteOffsetError" in f.error_message for f in (s1.fault, s5.fault))
+    unaligned = bool(rejected)
     e.observe("unaligned", unaligned)
     if unaligned:
         return "unaligned access: rejected by the cache, outside the program clause"
     if "C03" in props:
-        compare_final(e, s0, s5)
+        # data memory as the program sees it: the cached value where the block is resident
+        # (under write-back the backing memory may lag there, C12), else the backing memory
+        g_ = Geo(ib, bb, ways)
+        compare_final(e, s0, s5, mem5=lambda qa_: logical_byte(abstract_state(m5, g_), g_, c5.mem_store, qa_))
         q = e.int("q1", 0, 31)
         e.claim_eq("C03:single-cycle-cached==uncached:registers", c1.reg(q), c0.reg(q))
         e.claim_eq("C03:single-cycle-cached==uncached:output", c1.sim.state.output, c0.sim.state.output)
